@@ -343,6 +343,9 @@ fn exec_iofault(case: &Case) -> CaseResult {
     let max_points = case.params.get("max_points").copied().unwrap_or(40) as usize;
     let mut rng = Rng::new(crate::rng::mix2(case.run_seed, 0x10FA));
     let mut positions: Vec<usize> = (0..n).collect();
+    // positions from the table-read quota are tried with the transient mode only (a persistent
+    // failure of reads is the less interesting half; the budget goes into more positions instead)
+    let mut quota_only: std::collections::BTreeSet<usize> = Default::default();
     if n > max_points {
         // stratify: first occurrence(s) of every (kind, class) pair, then a uniform sample
         let mut seen: BTreeMap<(CallKind, crate::simfs::FileClass), u32> = BTreeMap::new();
@@ -362,10 +365,11 @@ fn exec_iofault(case: &Case) -> CaseResult {
         rng.shuffle(&mut rest);
         // reads of table files are where iterators and compactions meet a failing disk: they get a
         // quota of their own (a third of the budget on top), the remaining budget is uniform
-        let table_reads: Vec<usize> = rest.iter().copied().filter(|i| sites[*i].1 == crate::simfs::FileClass::Table && matches!(sites[*i].0, CallKind::Read | CallKind::Open)).take(max_points / 3).collect();
+        let table_reads: Vec<usize> = rest.iter().copied().filter(|i| sites[*i].1 == crate::simfs::FileClass::Table && matches!(sites[*i].0, CallKind::Read | CallKind::Open)).take(max_points * 2 / 3).collect();
         rest.retain(|i| !table_reads.contains(i));
         rest.truncate(max_points.saturating_sub(keep.len()));
         keep.extend(rest);
+        quota_only = table_reads.iter().copied().collect();
         keep.extend(table_reads);
         keep.sort_unstable();
         positions = keep;
@@ -375,7 +379,7 @@ fn exec_iofault(case: &Case) -> CaseResult {
     let mut total = base.clone();
     total.stats.bump("fault_positions_in_base_runs", n as u64);
     for p in positions {
-        let modes: Vec<FaultMode> = if sites[p].0 == CallKind::Write { vec![FaultMode::Transient, FaultMode::Sticky, FaultMode::PartialWrite] } else { vec![FaultMode::Transient, FaultMode::Sticky] };
+        let modes: Vec<FaultMode> = if quota_only.contains(&p) { vec![FaultMode::Transient] } else if sites[p].0 == CallKind::Write { vec![FaultMode::Transient, FaultMode::Sticky, FaultMode::PartialWrite] } else { vec![FaultMode::Transient, FaultMode::Sticky] };
         for mode in modes {
             let mut c = case.clone();
             c.fault = Some(FaultSpec { at_call: p as u64, mode, keep: rng.below(64) });
